@@ -33,6 +33,28 @@ Theorem C19_value : forall d (ps : list smp) z (l : smp) (fs : list smp) pc fc f
       Some (ORet (Some (if valid (snd p) then p else x))).
 Proof. exact value_after_sync. Qed.
 
+(* the same-timestamp clause on the value-failure path, for ANY stream contents (gaps on either side,
+   any lag): while the fallback runs and the primary delivers a sample p, what fetch_next returns is p
+   itself or a (fallback) sample carrying p's timestamp -- never a sample of another timestamp *)
+Theorem C19_same_timestamp : forall fuel s p pr o s',
+  running s = true -> recv (prim s) = RSmp p pr ->
+  fetch_next fuel s = FRet (Some o) s' -> o = p \/ fst o = fst p.
+Proof. exact fallback_sample_same_ts. Qed.
+
+(* the catch-up loop: whenever it ends normally the cached fallback sample is not older than the
+   primary sample, whatever the lag was ... *)
+Theorem C19_catch_up_reaches : forall fuel pts l f l' f',
+  catch_up fuel pts l f = CSome l' f' -> pts <= fst l'.
+Proof. exact catch_up_reaches. Qed.
+
+(* ... and on a gap-free fallback stream q steps behind (every q, not just 1) it ends exactly on the
+   sample of the primary's timestamp, having consumed q samples *)
+Theorem C19_catch_up_any_lag : forall d (q : nat) fuel pts (l : smp) (fs : list smp) c,
+  0 < d -> sgrid d (fst l + d) fs -> pts = fst l + Z.of_nat q * d ->
+  (q <= length fs)%nat -> (q <= fuel)%nat ->
+  catch_up fuel pts l (samples fs c) = CSome (nth q (l :: fs) dflt) (samples (skipn q fs) c).
+Proof. exact catch_up_grid. Qed.
+
 (* bounded start-up: p0 is the first invalid primary sample (it starts the fallback and is passed
    through); the fallback's first sample x0 lies lag steps after p0.  Every primary sample k+1 steps after
    p0 with lag <= k+1 already yields primary-if-valid-else-fallback of its own timestamp: an invalid
@@ -86,6 +108,9 @@ Proof. vm_compute. reflexivity. Qed.
 
 Print Assumptions C19_return.
 Print Assumptions C19_value.
+Print Assumptions C19_same_timestamp.
+Print Assumptions C19_catch_up_reaches.
+Print Assumptions C19_catch_up_any_lag.
 Print Assumptions C19_startup.
 Print Assumptions C19_closed.
 Print Assumptions C19_closed_not_started.
